@@ -36,7 +36,8 @@ PROP = {
     "extra": [crc_step_exhaustive],
     "exhaustive": True,
     "rule": "CRC: the complete one-byte transition function (2^24 pairs) is compared exhaustively; whole-string, "
-            "chunked and acceptance-test entry points on structured and random strings of length 0..300. Client level (scenario rtuflip): valid RTU replies of random valid requests under single-bit flips (all for frames <= 16 bytes, strided above), 24 random bit pairs, 16 random bursts <= 16 bits, 4 random CRC fields, plus the crafted F8 family; each followed by a clean exchange; P = first call not a success and second call a success.",
+            "chunked and acceptance-test entry points on structured and random strings of length 0..300. Client level (scenario rtuflip): valid RTU replies of random valid requests under single-bit flips (all for frames <= 16 bytes, strided above), 24 random bit pairs, 16 random bursts <= 16 bits, 4 random CRC fields, plus the crafted F8 family; each followed by a clean exchange; P = first call not a success and second call a success."
+            " Scenario rtufliptail (real deadlines): the reply with its byte count flipped 04->00 is rejected after 5 bytes, its tail arrives 10 ms after the request (inside the 256-character quiet period at 19200 bps); the next exchange must succeed.",
     "assumptions": [],
 }
 
